@@ -345,7 +345,12 @@ func checkC20V(c c20VCase) error {
 	var err error
 	var wantErr error
 	desc := fmt.Sprintf("%s%v", c.Entry, c.Modes)
-	switch c.Entry {
+	entry := c.Entry
+	hashAlg, hashLen := int64(-16), 32
+	if n, _ := fmt.Sscanf(c.Entry, "VerifyHashEnvelope:%d:%d", &hashAlg, &hashLen); n == 2 {
+		entry = "VerifyHashEnvelope"
+	}
+	switch entry {
 	case "Sign1Message.Verify":
 		err = (&cose.Sign1Message{Headers: c20Headers(), Payload: payload, Signature: []byte{1}}).Verify(nil, mk(c.Modes[0]))
 		wantErr = want(c.Modes[0])
@@ -362,9 +367,10 @@ func checkC20V(c c20VCase) error {
 		err = cose.VerifyCountersign0(mk(c.Modes[0]), parent, nil, []byte{1})
 		wantErr = want(c.Modes[0])
 	case "VerifyHashEnvelope":
-		h := sha256.Sum256(payload)
+		hs := sha256.Sum256(payload)
+		h := append(append(append([]byte{}, hs[:]...), hs[:]...), hs[:]...)[:hashLen]
 		hd := c20Headers()
-		hd.Protected[int64(258)] = cose.AlgorithmSHA256
+		hd.Protected[int64(258)] = cose.Algorithm(hashAlg)
 		env, e := (&cose.Sign1Message{Headers: hd, Payload: h[:], Signature: []byte{1}}).MarshalCBOR()
 		if e != nil {
 			return fmt.Errorf("harness: %v", e)
@@ -374,6 +380,12 @@ func checkC20V(c c20VCase) error {
 		wantErr = want(c.Modes[0])
 		if (err == nil) != (m != nil) {
 			return finding("message-with-error", "%s: returned message=%v err=%v", desc, m != nil, err)
+		}
+		if err != nil && (c.Modes[0] == 0 || spiesV[0].NCalls() == 0) {
+			// an envelope refused for its form (C12's business) although the verifier accepts, or before
+			// the verifier was consulted at all: no verdict of a verifier is lost
+			stats.Class("envelope-refused-for-its-form")
+			return nil
 		}
 	case "SignMessage.Verify":
 		msg := &cose.SignMessage{Headers: cose.Headers{Protected: cose.ProtectedHeader{}}, Payload: payload}
@@ -424,7 +436,15 @@ func TestC20_VerifierOutcomes(t *testing.T) {
 			stats.Sample("verifier-outcome-vector", c)
 		}
 	}
-	for _, e := range []string{"Sign1Message.Verify", "UntaggedSign1Message.Verify", "Signature.Verify", "Countersignature.Verify", "VerifyCountersign0", "VerifyHashEnvelope"} {
+	entries := []string{"Sign1Message.Verify", "UntaggedSign1Message.Verify", "Signature.Verify", "Countersignature.Verify", "VerifyCountersign0", "VerifyHashEnvelope"}
+	// hash envelopes naming every hash algorithm the library knows, and several it has no hash for
+	// (SHA-256/64, SHA-1, SHA-512/256, SHAKE128, reserved, private use), with digests of 8 / 20 / 32 / 48 / 64 octets
+	for _, ha := range []int64{-16, -43, -44, -15, -14, -17, -18, 0, -65536, 7} {
+		for _, hl := range []int{8, 20, 32, 48, 64} {
+			entries = append(entries, fmt.Sprintf("VerifyHashEnvelope:%d:%d", ha, hl))
+		}
+	}
+	for _, e := range entries {
 		for m := 0; m < 5; m++ {
 			run(c20VCase{Entry: e, Modes: []int{m}})
 		}
